@@ -11,15 +11,18 @@ Open Scope N_scope.
 Definition pipe_defs (E : env) (cls : N) (user : option N) (fmt : N) : list item :=
   e_bk E cls ++ match user with Some o => e_user E o | None => [] end ++ e_fmt E cls fmt.
 
-Fixpoint ideal_items (ps : pstate) (r : rule) (its : list item) : pstate * (rule + N) :=
+(* an external source yields what it yields now: there is no cache in the specification *)
+Definition src_vals (E : env) (it : item) : outcome (list str) :=
+  match i_tr it with TFile d => e_src E d | _ => Ok [] end.
+Fixpoint ideal_items (E : env) (ps : pstate) (r : rule) (its : list item) : pstate * (rule + N) :=
   match its with
   | [] => (ps, inl r)
   | it :: rest =>
-      let st := item_step ps r it in
+      let st := item_step ps r it (src_vals E it) in
       let ps1 := is_upd st ps in
       match is_res st with
       | inr e => (ps1, inr e)
-      | inl r' => ideal_items (note_applied it (is_match st) ps1) r' rest
+      | inl r' => ideal_items E (note_applied it (is_match st) ps1) r' rest
       end
   end.
 
@@ -46,7 +49,7 @@ Definition ideal_cond (E : env) (ne : bool) (dets : list (str * list ditem)) (k 
 (* one rule: pipeline built for format lfmt, query finalised for format fmt *)
 Definition ideal_rule (E : env) (cls : N) (user : option N) (lfmt fmt : N) (r : rule)
   : pstate * outcome (list str) :=
-  let '(ps, res) := ideal_items ps0 r (pipe_defs E cls user lfmt) in
+  let '(ps, res) := ideal_items E ps0 r (pipe_defs E cls user lfmt) in
   match res with
   | inr e => (ps, SigmaErr e)
   | inl r' => (ps, obind (omap (ideal_cond E (e_ne E cls) (r_dets r')) (r_conds r'))
@@ -116,3 +119,7 @@ Definition op_fmt_ok (fmts : list N) (o : op) : bool :=
   match o with
   | OInit _ f | OConvColl _ _ f | OConvRule _ _ f => existsb (N.eqb f) fmts
   | _ => true end.
+
+(* item object i is the object created for definition `it` (position snd i of the pipeline definition fst i names) *)
+Definition valid_pair (E : env) (i : iid) (it : item) : Prop :=
+  nth_error (match fst i with SBk c => e_bk E c | SFmt c f => e_fmt E c f | SUser o => e_user E o end) (snd i) = Some it.
